@@ -536,6 +536,8 @@ def check_C10(tier, seed):
     jc = job_contents()
     jobs_stage(v, sd, binary, "C10_xf", ds=["a", "s"], ent=["e1", "e2"], contents=jc, writable=["a"], max_batch=2 if thorough else 1,
                jobs=[job("dup", ["a"], "s", batch=2, xf="dup", par=2), job("drop", ["a"], "s", batch=3, xf="dropdel", par=3),
+                     # pages of one: a page whose transform output is empty is not the end of the source
+                     job("drop1", ["a"], "s", batch=1, xf="dropdel", par=1),
                      job("plain", ["a"], "s", batch=2, xf="none")],
                types=("incremental", "fullsync"), max_steps=3, tables="plain,shapes",
                props=("TokenSafe", "Idempotent"), rotate=True)
@@ -900,7 +902,7 @@ def check_C17(tier, seed):
     binary = verif.build_harness(v.wd)
     thorough = tier == "thorough"
     # every failing subset x maxItems x page size for runs of up to MaxB entities
-    eh_stage(v, sd, binary, "C17_log", "log", 7 if thorough else 5, (1, 2, 3, 10) if thorough else (2, 10))
+    eh_stage(v, sd, binary, "C17_log", "log", 7 if thorough else 5, (1, 2, 3, 10) if thorough else (1, 2, 10))
     # reRun: retries x number of executions the sink keeps failing
     eh_stage(v, sd, binary, "C17_rerun", "rerun", 1, (10,), retries=(1, 2) if thorough else (1, 2))
     v.assumptions = ["the sink is a scripted wrapper around the job's DatasetSink that rejects any batch containing an entity "
